@@ -1134,8 +1134,11 @@ def minimize_slice(ctx, pid, n, salt=41):
                     if shape is not None:
                         sl.disagreements.append({"op": f"minimize(maxfun={N})", "impl": shape, "model": "levels share one EvalCutoffProblem(FunctionProblem(fun), N); stop condition SingularProblemEvalLimitReached(N)"})
                     calls.clear()
-                r = minimize(f, bounds, maxfun=N, seed=seed)
-            except Exception as e:
+                from .common import run_limit
+
+                with run_limit():
+                    r = minimize(f, bounds, maxfun=N, seed=seed)
+            except Exception as e:  # includes RunTimeout: minimize() did not come back
                 sl.violations.append({"signature": f"{pid}/minimize-crashed", "detail": f"minimize(maxfun={N}, seed={seed}) raised {type(e).__name__}: {e}", "replay": {"bounds": bounds, "maxfun": N, "seed": seed}})
                 res = None
                 break
